@@ -25,7 +25,7 @@ CHECKS = {
    text='For n=1,2 (3 thorough) and ALL values: get_inner_product/transvection equal the spec, find_transvection maps v0 to v1 for all non-zero pairs (N0<=3/4), from_int_tuple(t) is symplectic and to_int_tuple inverts it '
         'for every tuple in range, from_int_tuple(to_int_tuple(M))=M with the tuple in range for every symplectic M (=> bijection, count = prod base), inverse is two-sided, rand_SpF2 feeds in-range tuples for any RNG output. '
         'Sizes are the only bound; induction over n is not claimed.',
-   note='Trusted: CPython/NumPy index machinery on object arrays, bit-vector proxy semantics, z3/cvc5, spec_f2; stub contracts of int_to_bitarray/bitarray_to_int (checked exhaustively for widths<=12 at run time, bounded) and of the size n-1 recursive calls. '
+   note='Trusted: CPython/NumPy index machinery on object arrays, bit-vector proxy semantics, z3/cvc5, spec_f2; stub contracts of the size n-1 recursive calls (each n is one induction step); the stub contracts of int_to_bitarray/bitarray_to_int are themselves decided by exact evaluation over their complete finite domain for every width <= 12 (the proved callers use widths <= 6). '
         'get_number closed forms and the exhaustive tuple enumeration are bounded run-time checks, reported separately.',
    tech=TECH + 'modular recursion stubs (induction step per n); exhaustive run-time contract evaluation as bounded stand-in'),
 }
